@@ -721,6 +721,8 @@ class Exec:
             return text == 'true'
         if text == '()':
             return Tuple([])
+        if text == 'std::ops::RangeFull':
+            return Struct('std::ops::RangeFull', {})
         if text.startswith('"'):
             d = unescape(text[1:-1])
             return Str(Buf('lit', data=d), 0, len(d))
@@ -744,6 +746,13 @@ class Exec:
         sg = strip_generics(text)
         if sg in self.consts:
             return self.eval_const(sg)
+        # a promoted of a trait-impl fn is referenced by its trait path but defined under the impl's span name:
+        # promoteds always belong to the function being executed
+        mp = re.search(r'::promoted\[(\d+)\]$', text)
+        if mp and frame is not None:
+            own = '%s::promoted[%s]' % (frame['fn'].name, mp.group(1))
+            if own in self.consts:
+                return self.eval_const(own)
         m = re.match(r'^(.*)::(\w+)$', text)
         if m and (m.group(1) in self.prog.enums or strip_generics(m.group(1)) in ENUM_VARIANTS):
             return Enum(strip_generics(m.group(1)), m.group(2), [])
